@@ -101,6 +101,13 @@ func init() {
 
 	trustedCalls["(*sync.Pool).Get"] = poolGet
 	trustedCalls["(*sync.Pool).Put"] = func(f *frame, c *ssa.CallCommon, args []sval) []sval { return nil }
+	// sync.WaitGroup only orders goroutines: it reads and writes no modelled memory.
+	for _, m := range []string{"Add", "Done", "Wait"} {
+		trustedCalls["(*sync.WaitGroup)."+m] = func(f *frame, c *ssa.CallCommon, args []sval) []sval {
+			f.t.assumptions["sync.WaitGroup calls only order goroutines; they touch no modelled memory (goroutine scheduling is outside the contracts: C08 is decided by the bounded schedule exploration)"] = true
+			return nil
+		}
+	}
 	trustedCalls["runtime.GOMAXPROCS"] = func(f *frame, c *ssa.CallCommon, args []sval) []sval {
 		t := f.t
 		r := t.havocTemp("gomaxprocs", t.th.SortOf(types.Typ[types.Int]), types.Typ[types.Int])
